@@ -1,12 +1,380 @@
-//! WAL helpers (filled in with the WAL half of C25 and with C17).
+//! WAL helpers: record generators, Coq printers, framing, the public-API routes to
+//! WalRecord::encode_body (Wal::append) and decode_body (Wal::replay_committed_from_path).
+use crate::*;
+use nervusdb_api::PropertyValue as PV;
+use nervusdb_storage::wal::{CommittedTx, SegmentPointer, Wal, WalRecord as WR};
+use serde_json::json;
 use std::collections::{BTreeMap, BTreeSet};
+use std::path::Path;
 use vh::*;
 
-pub fn child_replay(_b: &[u8]) {}
+pub const PAGE: usize = nervusdb_storage::PAGE_SIZE;
+pub const MAX_BODY: usize = 1024 * 1024;
+
+/// bitwise CRC-32 (IEEE), the harness's own (used only to frame bodies the harness
+/// invents; the implementation's checksum is observed through the frames it writes)
+pub fn crc32(b: &[u8]) -> u32 {
+    let mut c: u32 = 0xFFFF_FFFF;
+    for &x in b {
+        c ^= x as u32;
+        for _ in 0..8 {
+            c = if c & 1 != 0 { (c >> 1) ^ 0xEDB8_8320 } else { c >> 1 };
+        }
+    }
+    !c
+}
+pub fn frame_body(body: &[u8]) -> Vec<u8> {
+    let mut f = Vec::with_capacity(body.len() + 8);
+    f.extend_from_slice(&(body.len() as u32).to_le_bytes());
+    f.extend_from_slice(&crc32(body).to_le_bytes());
+    f.extend_from_slice(body);
+    f
+}
+
+fn gen_u32(r: &mut Rng) -> u32 {
+    match r.below(4) {
+        0 => *r.pick(&[0u32, 1, 2, 255, 256, u32::MAX, u32::MAX - 1, 0x8000_0000]),
+        1 => r.below(8) as u32,
+        _ => r.next() as u32,
+    }
+}
+fn gen_u64(r: &mut Rng) -> u64 {
+    match r.below(4) {
+        0 => *r.pick(&[0u64, 1, u32::MAX as u64, 1 << 32, u64::MAX, 1 << 63]),
+        1 => r.below(8),
+        _ => r.next(),
+    }
+}
+pub fn gen_record(r: &mut Rng, kind: u64) -> WR {
+    match kind {
+        0 => WR::BeginTx { txid: gen_u64(r) },
+        1 => WR::CommitTx { txid: gen_u64(r) },
+        2 => {
+            let mut page = Box::new([0u8; PAGE]);
+            for _ in 0..8 {
+                let i = r.below(PAGE as u64) as usize;
+                page[i] = r.next() as u8;
+            }
+            page[0] = r.next() as u8;
+            page[PAGE - 1] = r.next() as u8;
+            WR::PageWrite { page_id: gen_u64(r), page }
+        }
+        3 => WR::PageFree { page_id: gen_u64(r) },
+        4 => WR::CreateLabel { name: gen_str(r), label_id: gen_u32(r) },
+        5 => WR::CreateNode { external_id: gen_u64(r), label_id: gen_u32(r), internal_id: gen_u32(r) },
+        6 => WR::AddNodeLabel { node: gen_u32(r), label_id: gen_u32(r) },
+        7 => WR::RemoveNodeLabel { node: gen_u32(r), label_id: gen_u32(r) },
+        8 => WR::CreateEdge { src: gen_u32(r), rel: gen_u32(r), dst: gen_u32(r) },
+        9 => WR::TombstoneNode { node: gen_u32(r) },
+        10 => WR::TombstoneEdge { src: gen_u32(r), rel: gen_u32(r), dst: gen_u32(r) },
+        11 => {
+            let n = r.below(4) as usize;
+            WR::ManifestSwitch {
+                epoch: gen_u64(r),
+                segments: (0..n).map(|_| SegmentPointer { id: gen_u64(r), meta_page_id: gen_u64(r) }).collect(),
+                properties_root: gen_u64(r),
+                stats_root: gen_u64(r),
+            }
+        }
+        12 => WR::Checkpoint { up_to_txid: gen_u64(r), epoch: gen_u64(r), properties_root: gen_u64(r), stats_root: gen_u64(r) },
+        13 => WR::SetNodeProperty { node: gen_u32(r), key: gen_str(r), value: gen_value(r, 2) },
+        14 => WR::SetEdgeProperty { src: gen_u32(r), rel: gen_u32(r), dst: gen_u32(r), key: gen_str(r), value: gen_value(r, 2) },
+        15 => WR::RemoveNodeProperty { node: gen_u32(r), key: gen_str(r) },
+        _ => WR::RemoveEdgeProperty { src: gen_u32(r), rel: gen_u32(r), dst: gen_u32(r), key: gen_str(r) },
+    }
+}
+pub const N_KINDS: u64 = 17;
+pub fn kind_name(w: &WR) -> &'static str {
+    match w {
+        WR::BeginTx { .. } => "BeginTx",
+        WR::CommitTx { .. } => "CommitTx",
+        WR::PageWrite { .. } => "PageWrite",
+        WR::PageFree { .. } => "PageFree",
+        WR::CreateLabel { .. } => "CreateLabel",
+        WR::CreateNode { .. } => "CreateNode",
+        WR::AddNodeLabel { .. } => "AddNodeLabel",
+        WR::RemoveNodeLabel { .. } => "RemoveNodeLabel",
+        WR::CreateEdge { .. } => "CreateEdge",
+        WR::TombstoneNode { .. } => "TombstoneNode",
+        WR::TombstoneEdge { .. } => "TombstoneEdge",
+        WR::ManifestSwitch { .. } => "ManifestSwitch",
+        WR::Checkpoint { .. } => "Checkpoint",
+        WR::SetNodeProperty { .. } => "SetNodeProperty",
+        WR::SetEdgeProperty { .. } => "SetEdgeProperty",
+        WR::RemoveNodeProperty { .. } => "RemoveNodeProperty",
+        WR::RemoveEdgeProperty { .. } => "RemoveEdgeProperty",
+    }
+}
+
+fn n(x: u64) -> String {
+    coq_n(x as u128)
+}
+pub fn coq_wrec(w: &WR) -> String {
+    match w {
+        WR::BeginTx { txid } => format!("(WBegin {})", n(*txid)),
+        WR::CommitTx { txid } => format!("(WCommit {})", n(*txid)),
+        WR::PageWrite { page_id, page } => format!("(WPageWrite {} {})", n(*page_id), coq_bytes(page.as_ref())),
+        WR::PageFree { page_id } => format!("(WPageFree {})", n(*page_id)),
+        WR::CreateLabel { name, label_id } => format!("(WCreateLabel {} {})", coq_bytes(name.as_bytes()), n(*label_id as u64)),
+        WR::CreateNode { external_id, label_id, internal_id } => format!("(WCreateNode {} {} {})", n(*external_id), n(*label_id as u64), n(*internal_id as u64)),
+        WR::AddNodeLabel { node, label_id } => format!("(WAddNodeLabel {} {})", n(*node as u64), n(*label_id as u64)),
+        WR::RemoveNodeLabel { node, label_id } => format!("(WRemoveNodeLabel {} {})", n(*node as u64), n(*label_id as u64)),
+        WR::CreateEdge { src, rel, dst } => format!("(WCreateEdge {} {} {})", n(*src as u64), n(*rel as u64), n(*dst as u64)),
+        WR::TombstoneNode { node } => format!("(WTombstoneNode {})", n(*node as u64)),
+        WR::TombstoneEdge { src, rel, dst } => format!("(WTombstoneEdge {} {} {})", n(*src as u64), n(*rel as u64), n(*dst as u64)),
+        WR::ManifestSwitch { epoch, segments, properties_root, stats_root } => format!(
+            "(WManifestSwitch {} {} {} {})",
+            n(*epoch),
+            coq_list(segments, |s| format!("({}, {})", n(s.id), n(s.meta_page_id))),
+            n(*properties_root),
+            n(*stats_root)
+        ),
+        WR::Checkpoint { up_to_txid, epoch, properties_root, stats_root } => format!("(WCheckpoint {} {} {} {})", n(*up_to_txid), n(*epoch), n(*properties_root), n(*stats_root)),
+        WR::SetNodeProperty { node, key, value } => format!("(WSetNodeProp {} {} {})", n(*node as u64), coq_bytes(key.as_bytes()), coq_pv(value)),
+        WR::SetEdgeProperty { src, rel, dst, key, value } => format!("(WSetEdgeProp {} {} {} {} {})", n(*src as u64), n(*rel as u64), n(*dst as u64), coq_bytes(key.as_bytes()), coq_pv(value)),
+        WR::RemoveNodeProperty { node, key } => format!("(WRemoveNodeProp {} {})", n(*node as u64), coq_bytes(key.as_bytes())),
+        WR::RemoveEdgeProperty { src, rel, dst, key } => format!("(WRemoveEdgeProp {} {} {} {})", n(*src as u64), n(*rel as u64), n(*dst as u64), coq_bytes(key.as_bytes())),
+    }
+}
+pub fn coq_txs(t: &[CommittedTx]) -> String {
+    coq_list(t, |tx| format!("({}, {})", n(tx.txid), coq_list(&tx.ops, coq_wrec)))
+}
+
+/// the frame `Wal::append` writes for a record (None: append refused it)
+pub fn impl_frame(dir: &Path, rec: &WR) -> Option<Vec<u8>> {
+    let p = dir.join("enc.wal");
+    let _ = std::fs::remove_file(&p);
+    let mut w = Wal::open(&p).unwrap();
+    let r = w.append(rec);
+    drop(w);
+    let b = std::fs::read(&p).unwrap();
+    r.ok().map(|_| b)
+}
+
+#[derive(Debug)]
+pub enum Replay {
+    Ok(Vec<CommittedTx>),
+    TooLarge,
+    Protocol(String),
+    Other(String),
+    Panic(String),
+}
+impl Replay {
+    pub fn coq(&self) -> String {
+        match self {
+            Replay::Ok(t) => format!("(inl {})", coq_txs(t)),
+            Replay::TooLarge => "(inr LTooLarge)".into(),
+            Replay::Protocol(_) => "(inr LProtocol)".into(),
+            Replay::Other(_) => "(inr LNoFuel)".into(), // never equal to a model outcome
+            Replay::Panic(_) => "(inr LPanic)".into(),
+        }
+    }
+    pub fn kind(&self) -> String {
+        match self {
+            Replay::Ok(t) => format!("ok:{}tx", t.len().min(9)),
+            Replay::TooLarge => "err:too-large".into(),
+            Replay::Protocol(m) => format!("err:{}", m),
+            Replay::Other(m) => format!("err-other:{}", m),
+            Replay::Panic(_) => "panic".into(),
+        }
+    }
+}
+/// Wal::replay_committed_from_path on a file holding `bytes`
+pub fn impl_replay(dir: &Path, bytes: &[u8]) -> Replay {
+    let p = dir.join("replay.wal");
+    std::fs::write(&p, bytes).unwrap();
+    classify(catch(|| Wal::replay_committed_from_path(&p)))
+}
+pub fn classify(r: Result<nervusdb_storage::Result<Vec<CommittedTx>>, String>) -> Replay {
+    match r {
+        Ok(Ok(t)) => Replay::Ok(t),
+        Ok(Err(nervusdb_storage::Error::WalRecordTooLarge(_))) => Replay::TooLarge,
+        Ok(Err(nervusdb_storage::Error::WalProtocol(m))) => Replay::Protocol(m.to_string()),
+        Ok(Err(e)) => Replay::Other(e.to_string()),
+        Err(m) => Replay::Panic(m),
+    }
+}
+
+pub fn child_replay(b: &[u8]) {
+    let dir = tempfile::tempdir().unwrap();
+    let r = impl_replay(dir.path(), b);
+    println!("{}", r.kind());
+}
+
+fn mutate_body(r: &mut Rng, body: &[u8]) -> Vec<u8> {
+    let mut b = body.to_vec();
+    match r.below(7) {
+        0 => {
+            let k = r.below(b.len() as u64 + 1) as usize;
+            b.truncate(k);
+        }
+        1 => {
+            if !b.is_empty() {
+                let i = r.below(b.len() as u64) as usize;
+                b[i] ^= 1 << r.below(8);
+            }
+        }
+        2 => {
+            let k = 1 + r.below(20) as usize;
+            b.extend(r.bytes(k));
+        }
+        3 => {
+            if b.len() >= 5 {
+                let i = 1 + r.below((b.len() - 4) as u64) as usize;
+                let v: u32 = *r.pick(&[0xFFFF_FFFFu32, 0x1000_0000, 65536, 300, 4, 3, 2, 1, 0]);
+                b[i..i + 4].copy_from_slice(&v.to_le_bytes());
+            }
+        }
+        4 => {
+            if !b.is_empty() {
+                b[0] = r.below(20) as u8;
+            }
+        }
+        5 => {
+            if !b.is_empty() {
+                let i = r.below(b.len() as u64) as usize;
+                b.remove(i);
+            }
+        }
+        _ => {
+            let i = r.below(b.len() as u64 + 1) as usize;
+            b.insert(i, r.next() as u8);
+        }
+    }
+    b
+}
+
+/// the ManifestSwitch bodies whose length check and reads disagree (count = 1, 24..31 bytes
+/// after the segment table start): a panic on the pinned tree
+pub fn manifest_short_bodies() -> Vec<Vec<u8>> {
+    let mut v = vec![];
+    for extra in [24usize, 27, 31] {
+        let mut b = vec![9u8];
+        b.extend_from_slice(&7u64.to_le_bytes());
+        b.extend_from_slice(&1u32.to_le_bytes());
+        b.extend(std::iter::repeat(0xAB).take(extra));
+        v.push(b);
+    }
+    v
+}
 
 #[allow(clippy::too_many_arguments)]
 pub fn c25_wal_stream(
-    _a: &Args, _r: &mut Rng, _n: usize, _cw: &mut CaseWriter, _rep: &mut Report, _hist: &mut BTreeMap<String, u64>,
-    _distinct: &mut BTreeSet<Vec<u8>>, _fails: &mut u64, _idx: &mut usize,
+    a: &Args, r: &mut Rng, n_cases: usize, cw: &mut CaseWriter, rep: &mut Report, hist: &mut BTreeMap<String, u64>,
+    distinct: &mut BTreeSet<Vec<u8>>, fails: &mut u64, idx: &mut usize,
 ) {
+    let dir = tempfile::tempdir().unwrap();
+    let d = dir.path();
+    let begin = frame_body(&{ let mut b = vec![1u8]; b.extend_from_slice(&1u64.to_le_bytes()); b });
+    let commit = frame_body(&{ let mut b = vec![2u8]; b.extend_from_slice(&1u64.to_le_bytes()); b });
+    let wrap = |body: &[u8]| -> Vec<u8> {
+        let mut f = begin.clone();
+        f.extend_from_slice(&frame_body(body));
+        f.extend_from_slice(&commit);
+        f
+    };
+    let mut samples = 0;
+    let mut bodies: Vec<Vec<u8>> = vec![];
+    let mut pagewrites = 0;
+
+    // corpus: witnesses of the repaired ManifestSwitch length check
+    for body in manifest_short_bodies() {
+        let file = wrap(&body);
+        let out = impl_replay(d, &file);
+        *hist.entry("stream:wal-corpus".into()).or_insert(0) += 1;
+        *hist.entry(format!("wal-replay:{}", out.kind())).or_insert(0) += 1;
+        if let Replay::Panic(m) = &out {
+            *fails += 1;
+            rep.fail(*idx, None, &format!("decoding a checksummed ManifestSwitch record of {} bytes panicked: {}", body.len(), m), json!({"body_hex": hex_short(&body), "stream": "wal-corpus"}));
+        }
+        cw.push(format!("CWalReplay {} {}", coq_bytes(&file), out.coq()));
+        *idx += 1;
+    }
+
+    // every record kind: encode through Wal::append, decode through replay_committed
+    let n_rec = n_cases / 2;
+    for i in 0..n_rec {
+        let mut kind = if i < 2 * N_KINDS as usize { i as u64 % N_KINDS } else { r.below(N_KINDS) };
+        if kind == 2 {
+            pagewrites += 1;
+            if pagewrites > 3 {
+                kind = 13;
+            }
+        }
+        let rec = gen_record(r, kind);
+        *hist.entry("stream:wal-record".into()).or_insert(0) += 1;
+        *hist.entry(format!("wal-kind:{}", kind_name(&rec))).or_insert(0) += 1;
+        let Some(fr) = impl_frame(d, &rec) else {
+            *fails += 1;
+            rep.fail(*idx, None, "Wal::append refused a small record", json!({"record": coq_wrec(&rec)}));
+            *idx += 1;
+            continue;
+        };
+        // decode it back: inside a transaction (markers are their own transaction)
+        let file = match &rec {
+            WR::BeginTx { txid } => { let mut f = fr.clone(); f.extend_from_slice(&frame_body(&{ let mut b = vec![2u8]; b.extend_from_slice(&txid.to_le_bytes()); b })); f }
+            WR::CommitTx { txid } => { let mut f = frame_body(&{ let mut b = vec![1u8]; b.extend_from_slice(&txid.to_le_bytes()); b }); f.extend_from_slice(&fr); f }
+            _ => { let mut f = begin.clone(); f.extend_from_slice(&fr); f.extend_from_slice(&commit); f }
+        };
+        let out = impl_replay(d, &file);
+        *hist.entry(format!("wal-replay:{}", out.kind())).or_insert(0) += 1;
+        // direct: exactly what was encoded comes back (floats as bit patterns)
+        let good = match (&out, &rec) {
+            (Replay::Ok(t), WR::BeginTx { txid }) | (Replay::Ok(t), WR::CommitTx { txid }) => t.len() == 1 && t[0].txid == *txid && t[0].ops.is_empty(),
+            (Replay::Ok(t), _) => t.len() == 1 && t[0].txid == 1 && t[0].ops.len() == 1 && coq_wrec(&t[0].ops[0]) == coq_wrec(&rec),
+            _ => false,
+        };
+        if !good {
+            *fails += 1;
+            rep.fail(*idx, None, &format!("a {} record does not come back from the log as written: {}", kind_name(&rec), out.kind()),
+                json!({"record": if fr.len() < 600 { coq_wrec(&rec) } else { kind_name(&rec).to_string() }, "frame_hex": hex_short(&fr)}));
+        }
+        distinct.insert(fr.clone());
+        cw.push(format!("CWalEnc {} {}", coq_wrec(&rec), coq_bytes(&fr)));
+        cw.push(format!("CWalReplay {} {}", coq_bytes(&file), out.coq()));
+        if samples < 2 && kind >= 11 {
+            samples += 1;
+            rep.case(*idx, json!({"stream": "wal-record", "record": coq_wrec(&rec), "frame_hex": hex_short(&fr)}));
+        }
+        if fr.len() < 400 {
+            bodies.push(fr[8..].to_vec());
+        }
+        *idx += 1;
+    }
+
+    // arbitrary / mutated bodies with a correct checksum, inside a transaction
+    let n_mut = n_cases - n_rec;
+    for _ in 0..n_mut {
+        let body = match r.below(8) {
+            0 => { let k = r.below(40) as usize; let mut b = r.bytes(k); if !b.is_empty() { b[0] = r.below(19) as u8; } b }
+            1 => {
+                // ManifestSwitch with an inconsistent count / length
+                let mut b = vec![9u8];
+                b.extend_from_slice(&r.next().to_le_bytes());
+                let count = r.below(4) as u32;
+                b.extend_from_slice(&count.to_le_bytes());
+                let k = r.below(70) as usize;
+                b.extend(r.bytes(k));
+                b
+            }
+            2 => { let b0 = r.pick(&bodies).clone(); let m = mutate_body(r, &b0); mutate_body(r, &m) }
+            _ => { let b0 = r.pick(&bodies).clone(); mutate_body(r, &b0) }
+        };
+        let file = wrap(&body);
+        let out = impl_replay(d, &file);
+        *hist.entry("stream:wal-body".into()).or_insert(0) += 1;
+        *hist.entry(format!("wal-replay:{}", out.kind())).or_insert(0) += 1;
+        if let Replay::Panic(m) = &out {
+            *fails += 1;
+            rep.fail(*idx, None, &format!("decoding a checksummed record body of {} bytes panicked: {}", body.len(), m), json!({"body_hex": hex_short(&body), "stream": "wal-body"}));
+        }
+        if let Replay::Other(m) = &out {
+            *fails += 1;
+            rep.fail(*idx, None, &format!("unexpected error kind from replay: {}", m), json!({"body_hex": hex_short(&body)}));
+        }
+        distinct.insert(file.clone());
+        cw.push(format!("CWalReplay {} {}", coq_bytes(&file), out.coq()));
+        *idx += 1;
+    }
+    let _ = (a, PV::Null);
 }
